@@ -78,6 +78,68 @@ def install_as_follower(cx):
     cx.check(n >= 2, "floor", "in-crate paths into the snapshot install were found")
 
 
+@obligation("STEP.leader_msg_arms", ["C16", "C10", "C06"], floor=6, kind="arm shape (dominating writes / transition) with caller context",
+            why="a follower that does not restart its election timer on leader traffic campaigns against a healthy leader; a candidate that handles leader traffic without stepping down first changes its log while still soliciting votes")
+def leader_msg_arms(cx):
+    from ..engine import _clause_holds
+    setters = _follower_setters(cx)
+    n = 0
+    seen = set()
+    kinds = set()
+    for T in ("MsgAppend", "MsgHeartbeat", "MsgSnapshot"):
+        for c in cx.prog.all_calls:
+            if c.fn.crate != "raft" or c.kind != "call" or c.data["callee"] not in cx.prog.short:
+                continue
+            callee = cx.prog.fn_by_short(c.data["callee"])
+            if callee is None or callee.crate != "raft" or callee.impl_adt is None or "raft::Raft" not in callee.impl_adt:
+                continue
+            if not _in_msg_arm(cx, c, {T}, depth=0):
+                continue
+            args = call_args(cx, c)
+            m = [a for a in args[1:] if a[0] == "param" and is_param_of_adt(c.fn, a, "Message")]
+            if not m or callee.key in setters:
+                continue
+            m = m[0]
+            if (c.fn.key, c.block) in seen:
+                continue
+            seen.add((c.fn.key, c.block))
+            g = cx.pg(c.fn)
+            key = cx.site_key(c, T)
+
+            def st_in(names):
+                def acc(l):
+                    return l[0] == "in" and is_f(l[1], STATE) and l[2] <= frozenset(names)
+                return acc
+            as_follower = _clause_holds(cx, c, st_in({"Follower"}), False)[0]
+            as_cand = _clause_holds(cx, c, st_in({"Candidate", "PreCandidate"}), False)[0]
+            if as_follower:
+                ez = {w.block for w in cx.prog.writes.get("RaftCore.election_elapsed", []) if w.fn is c.fn and "stmt" in w.data and write_value(cx, w) == ("int", 0) and _in_msg_arm(cx, w, {T}, depth=0)}
+                lz = {w.block for w in cx.prog.writes.get("RaftCore.leader_id", []) if w.fn is c.fn and "stmt" in w.data and write_value(cx, w) == ("field", m, "Message.from") and _in_msg_arm(cx, w, {T}, depth=0)}
+                ok1 = bool(ez) and (c.block in ez or g.dominated_by_block(c.at, lambda b: b in ez))
+                ok2 = bool(lz) and (c.block in lz or g.dominated_by_block(c.at, lambda b: b in lz))
+                cx.check(ok1, key + ":timer", "a follower restarts its election timer on every %s from the leader" % T, c)
+                cx.check(ok2, key + ":leader", "a follower records the sender of a %s as its leader" % T, c)
+                kinds.add((T, "follower"))
+                n += 1
+            elif as_cand:
+                setblocks = {}
+                for sp, x in cx.prog.calls_out[c.fn.key]:
+                    if x.kind == "call" and any(k in setters for k in cx.prog.short.get(sp, [])) and _in_msg_arm(cx, x, {T}, depth=0):
+                        setblocks[x.block] = x
+                ok = bool(setblocks) and g.dominated_by_block(c.at, lambda b: b in setblocks)
+                cx.check(ok, key + ":stepdown", "a (pre)candidate becomes follower before it handles a %s of its own term" % T, c)
+                for x in setblocks.values():
+                    a = call_args(cx, x)
+                    oka = len(a) >= 3 and a[1] == ("field", m, "Message.term") and a[2] == ("field", m, "Message.from")
+                    cx.check(oka, cx.site_key(x, T + ":stepdown-args"), "it follows the sender at the message's term: become_follower(m.term, m.from) (found %s)" % [show(y) for y in a[1:]], x)
+                kinds.add((T, "candidate"))
+                n += 1
+    for T in ("MsgAppend", "MsgHeartbeat", "MsgSnapshot"):
+        for role in ("follower", "candidate"):
+            cx.check((T, role) in kinds, "arm:%s:%s" % (role, T), "the %s handles %s in an arm of its own" % (role, T))
+    cx.check(n >= 6, "floor", "follower and candidate arms for leader traffic were found")
+
+
 @obligation("SNAP.install_guards", ["C15"], floor=4, kind="guard (CNF) + must-not-reach",
             why="a stale or foreign snapshot must not replace the log; an already-matching one must discard nothing")
 def install_guards(cx):
@@ -109,6 +171,26 @@ def install_guards(cx):
     require_all(cx, c, cx.site_key(c, "install"), "a snapshot replaces the log only if it is not behind the commit index, the node is a follower and a member, and it is not an already-matching unrequested snapshot",
                 [("!(snap.index < committed)", not_behind), ("state == Follower", follower), ("self.id listed in the snapshot's ConfState", member),
                  ("pending_request_snapshot != 0 || !match_term(snap.index, snap.term)", not_matching_or_requested)], kill=False)
+    # the boolean result tells the caller which index to acknowledge: true exactly when the snapshot was installed
+    rets = {}
+    for bi, blk in enumerate(f.body.blocks):
+        for si, st in enumerate(blk["stmts"]):
+            if st.get("k") == "assign" and st["place"]["l"] == 0 and not st["place"]["p"]:
+                cst = st["rv"].get("use", {}).get("const", {})
+                rets[(bi, si)] = cst.get("val", {}).get("int") if cst.get("ty") == "bool" else "?"
+    gi = cx.pg(f)
+    inst_blk = c.block
+    okr = bool(rets) and f.body.local_ty(0) == "bool"
+    for (bi, si), val in rets.items():
+        if bi not in cx.prog.A(f).reach:
+            continue
+        if val == 1:
+            okr = okr and (gi.dominated_by_block((bi, si), lambda b: b == inst_blk))
+        elif val == 0:
+            okr = okr and not gi.block_reaches(inst_blk, lambda b, bi=bi: b == bi)
+        else:
+            okr = False
+    cx.check(okr, "result", "the install function returns true exactly on the path that replaced the log (the caller acknowledges last_index only then, the commit index otherwise)")
     # member test covers voters, learners and voters_outgoing
     a = cx.prog.A(f)
     chain = None
